@@ -46,6 +46,7 @@ void (*k_wait_return_hook)(struct kwait_info *wi, int nready);
 long (*k_read_hook)(int fd, void *buf, unsigned long n);
 long (*k_write_hook)(int fd, const void *buf, unsigned long n);
 void (*k_close_hook)(int fd);
+void (*k_clock_hook)(void);
 
 char sx_empty_string[1];
 
@@ -142,7 +143,7 @@ void k_time_fresh(struct ktime *t, const char *name)
 {
 	struct ktime n;
 
-	n.sec = sx_long(name, 0, 1L << 40);
+	n.sec = sx_long(name, 0, (1L << 31) - 1);
 	n.nsec = sx_long(name, 0, 999999999);
 	sx_assume(k_time_le(&k_now, &n));
 	k_now = n;
@@ -220,6 +221,8 @@ int clock_gettime(clockid_t clk, struct timespec *ts)
 		t = k_now;
 	ts->tv_sec = t.sec;
 	ts->tv_nsec = t.nsec;
+	if (k_clock_hook)
+		k_clock_hook();
 	return 0;
 }
 
